@@ -23,7 +23,6 @@ SHAPES = {
 }
 SHAPES_T = {
     'or(L,or(L,or(L,L)))': (None, (None, (None, None))),
-    'or(or(or(L,L),L),or(L,L))': (((None, None), None), (None, None)),
 }
 
 
@@ -234,6 +233,8 @@ def obligations(tier):
             for rootann in (0, 1):
                 if q and len(nodes_of(shape)) >= 6 and (special == 2 or rootann == 1):
                     continue        # the 4-leaf shape is explored in full only in the thorough tier
+                if name in SHAPES_T and (special or rootann):
+                    continue        # the deeper shape: plain configuration only (sized by wall time)
                 obs.append(Ob(f'union/{name}/special={["-", "default", "root"][special]}/rootann={rootann}', 'bvx', sym_shape, conc_shape,
                               {'shape': shape, 'special': special, 'rootann': rootann}, timeout=300 if q else 1800,
                               bounds='every subset of nodes annotated (solver-chosen mask), position of the special name, entrypoint called, '
